@@ -191,6 +191,8 @@ def merge(total, s):
 
 
 def run_job(job, prop, tier, seed, scratch, ev):
+    # every job works in its own scratch directory (several jobs may use the same configuration)
+    scratch = tempfile.mkdtemp(prefix="job-", dir=scratch)
     kind = job["kind"]
     mode = job["mode"]
     rng = random.Random(seed * 7919 + hash(job["cfg"]) % 1000)
